@@ -152,10 +152,37 @@ func (p *pkgInfo) lookup(scope, name string) (constant.Value, error) {
 			if val != nil {
 				return val, nil
 			}
-			return nil, fmt.Errorf("%s: no constant in function %s", name, scope)
+			break
 		}
 	}
-	return nil, fmt.Errorf("function %s not found", scope)
+	// The constant is not (any more) in the named function: a refactoring may
+	// have moved it into a helper.  Accept a function-local constant of that
+	// name from anywhere in the package when all its occurrences agree.
+	var found constant.Value
+	conflict := false
+	for _, f := range p.files {
+		for _, d := range f.Decls {
+			fd, ok := d.(*ast.FuncDecl)
+			if !ok || fd.Body == nil {
+				continue
+			}
+			ast.Inspect(fd.Body, func(n ast.Node) bool {
+				if id, ok := n.(*ast.Ident); ok && id.Name == name {
+					if c, ok := p.info.Defs[id].(*types.Const); ok {
+						if found != nil && !constant.Compare(found, token.EQL, c.Val()) {
+							conflict = true
+						}
+						found = c.Val()
+					}
+				}
+				return true
+			})
+		}
+	}
+	if found != nil && !conflict {
+		return found, nil
+	}
+	return nil, fmt.Errorf("%s: no constant in function %s (nor a unique one elsewhere in the package)", name, scope)
 }
 
 func coqBytes(s string) string {
